@@ -1798,6 +1798,8 @@ class GaussianTimeFluxProfile(
             If set to ``None``, the configured default time unit for fluxes is
             used.
         """
+        self._tol = tol
+
         # Calculate the start and end time of the gaussian profile, such that
         # at those times the gaussian values obey the given tolerance.
         dt = np.sqrt(-2 * sigma_t**2 * np.log(tol))
@@ -1852,6 +1854,14 @@ class GaussianTimeFluxProfile(
             sigma,
             'The sigma_t property must be castable to type float!')
         self._sigma_t = sigma
+
+        # Update the start and end time of the gaussian profile, such that
+        # at those times the gaussian values obey the tolerance for the new
+        # width.
+        t0 = self.t0
+        dt = np.sqrt(-2 * sigma**2 * np.log(self._tol))
+        self._t_start = t0 - dt
+        self._t_stop = t0 + dt
 
     def __call__(
             self,
